@@ -86,6 +86,9 @@ class Env:
         self.fields = {}     # oid -> {field: (type, card)}     definitely present members
         self.hist = {}       # oid -> list of (field, via-var, seq)   writes so far
         self.ndefs = {}      # var -> number of definitions so far on this path
+        self.taint = {}      # var -> frozenset of definition ids its value derives from (static dependence)
+        self.ftaint = {}     # (oid, member) -> frozenset of definition ids
+        self.own = {}        # var -> frozenset of the ids of its reaching definitions
 
     def copy(self):
         e = Env()
@@ -95,6 +98,9 @@ class Env:
         e.fields = {o: dict(f) for o, f in self.fields.items()}
         e.hist = {o: list(h) for o, h in self.hist.items()}
         e.ndefs = dict(self.ndefs)
+        e.taint = dict(self.taint)
+        e.ftaint = dict(self.ftaint)
+        e.own = dict(self.own)
         return e
 
     @staticmethod
@@ -109,10 +115,14 @@ class Env:
                     e.types[v] = ("obj", ta[1] | tb[1])
                 else:
                     continue
-                same = a.tag.get(v) == b.tag.get(v) and a.ndefs.get(v) == b.ndefs.get(v)
+                same = a.own.get(v) == b.own.get(v)
                 e.card[v] = a.card.get(v, 1) + (0 if same else b.card.get(v, 1))
                 e.tag[v] = a.tag.get(v) if same else "branch-join"
                 e.ndefs[v] = max(a.ndefs.get(v, 1), b.ndefs.get(v, 1))
+                e.taint[v] = a.taint.get(v, frozenset()) | b.taint.get(v, frozenset())
+                e.own[v] = a.own.get(v, frozenset()) | b.own.get(v, frozenset())
+        for k in set(a.ftaint) | set(b.ftaint):
+            e.ftaint[k] = a.ftaint.get(k, frozenset()) | b.ftaint.get(k, frozenset())
         for o in set(a.fields) | set(b.fields):
             fa, fb = a.fields.get(o), b.fields.get(o)
             if fa is None or fb is None:
@@ -201,6 +211,7 @@ class Gen:
         self.call_sites = {}
         self.depth = 0
         self.in_loop = False
+        self.ndef = 0
 
     # ---- emission ------------------------------------------------------------------------------------------------
     def emit(self, text, **meta):
@@ -319,7 +330,34 @@ class Gen:
                 return self.rng.choice(vs), True
         return self.fresh(), False
 
-    def define(self, env, var, typ, card, tag):
+    def taint_of(self, env, *srcs):
+        t = frozenset()
+        for x in srcs:
+            if isinstance(x, frozenset):
+                t |= x
+            elif isinstance(x, str):
+                t |= env.taint.get(x, frozenset())
+        return t
+
+    def new_def_id(self):
+        self.ndef += 1
+        return self.ndef
+
+    def member_taint(self, env, v, member):
+        t = env.taint.get(v, frozenset())
+        for o in env.types[v][1]:
+            t |= env.ftaint.get((o, member), frozenset())
+        return t
+
+    def write_member_taint(self, env, v, member, value_taint):
+        pts = env.types[v][1]
+        t = value_taint | frozenset([self.new_def_id()])
+        for o in pts:
+            env.ftaint[(o, member)] = t if len(pts) == 1 else (env.ftaint.get((o, member), frozenset()) | t)
+
+    def define(self, env, var, typ, card, tag, srcs=()):
+        env.own[var] = frozenset([self.new_def_id()])
+        env.taint[var] = self.taint_of(env, *srcs) | env.own[var]
         overwritten = var in env.types
         env.types[var] = typ
         env.card[var] = max(1, min(card, 64))
@@ -362,7 +400,7 @@ class Gen:
             return False
         tag = "overwrite" if v in env.types else "copy"
         self.emit(f"{v} = {s}", kind="def", var=v, construct=tag if tag == "overwrite" else "copy")
-        self.define(env, v, typ, env.card.get(s, 1), tag)
+        self.define(env, v, typ, env.card.get(s, 1), tag, srcs=(s,))
         return True
 
     def st_binop_int(self, env):
@@ -370,14 +408,18 @@ class Gen:
         b, cb, _ = self.int_atom(env, maxcard=4)
         if ca * cb > 12:
             return False
+        if self.c09 and ca > 1 and cb > 1:
+            # C09's statement defines a fold's exact result as the set over the operand *combinations*; with two
+            # branch-dependent operands the combinations can exceed the collecting semantics (correlated operands)
+            return False
         op = self.rng.choice(["+", "+", "-", "-", "*"])
-        if self.rng.random() < 0.12 and not a.isdigit():
+        if self.rng.random() < 0.12 and not a.lstrip("-").isdigit():
             b, cb, op = a, ca, "-"          # x - x: a falsy result on every path
-            if ca > 3:
+            if ca > (1 if self.c09 else 3):
                 return False
         v, _ = self.target(env, "int")
         self.emit(f"{v} = {a} {op} {b}", kind="def", var=v, construct="binary-fold", operator=op)
-        self.define(env, v, "int", ca * cb, "binary-fold")
+        self.define(env, v, "int", ca * cb, "binary-fold", srcs=(a, b))
         return True
 
     def st_binop_str(self, env):
@@ -392,14 +434,14 @@ class Gen:
             for l in (la, lb):
                 if l:
                     self.note_literal(ln, l[0], l[1])
-            self.define(env, v, "str", ca * cb, "binary-fold")
+            self.define(env, v, "str", ca * cb, "binary-fold", srcs=(a, b))
         else:
             a, ca, la = self.str_atom(env, maxcard=3)
             k = self.rng.choice([0, 1, 2, 3])
             ln = self.emit(f"{v} = {a} * {k}", kind="def", var=v, construct="binary-fold", operator="*")
             if la:
                 self.note_literal(ln, la[0], la[1])
-            self.define(env, v, "str", ca, "binary-fold")
+            self.define(env, v, "str", ca, "binary-fold", srcs=(a,))
         return True
 
     def new_obj(self, env, kind, cls, line, fields):
@@ -423,6 +465,8 @@ class Gen:
             fields = dict(self.classes[which]["init"])
         oid = self.new_obj(env, "inst", which, ln, fields)
         self.define(env, v, ("obj", frozenset([oid])), 1, "allocation")
+        if which == "KC":
+            env.ftaint[(oid, "f1")] = self.taint_of(env, a) | frozenset([self.new_def_id()])
         return True
 
     def st_alloc_coll(self, env):
@@ -521,6 +565,7 @@ class Gen:
             elif old is not None:
                 del env.fields[o][f]
         self.note_write(env, v, f)
+        self.write_member_taint(env, v, f, self.taint_of(env, a))
         env.tag[v] = env.tag.get(v, "allocation")
         self.p.features.add("field-write")
         return True
@@ -537,6 +582,8 @@ class Gen:
         if not writes:
             return "field-read-of-constructor-value"
         last = writes[-1]
+        if last[1] == "%callee":
+            return "field-read-after-callee-field-write"
         if last[1] != v:
             return "field-read-after-alias-write"
         later = [x for x in h if x[2] > last[2] and x[0] != f]
@@ -573,7 +620,7 @@ class Gen:
         else:
             t, _ = self.target(env, typ)
         self.emit(f"{t} = {v}.{f}", kind="def", var=t, construct=tag, field=f)
-        self.define(env, t, typ, card, tag)
+        self.define(env, t, typ, card, tag, srcs=(self.member_taint(env, v, f),))
         return True
 
     def st_elem_write(self, env):
@@ -600,6 +647,7 @@ class Gen:
         env.fields[o][k] = (typ, ca)
         self.seq += 1
         env.hist.setdefault(o, []).append((k, v, self.seq))
+        self.write_member_taint(env, v, k, self.taint_of(env, a))
         self.p.features.add("element-write")
         return True
 
@@ -626,7 +674,7 @@ class Gen:
             tag = "element-vs-element" if later else ("element-overwrite" if True else "")
         t, _ = self.target(env, typ)
         self.emit(f"{t} = {v}[{idx}]", kind="def", var=t, construct=tag)
-        self.define(env, t, typ, card, tag)
+        self.define(env, t, typ, card, tag, srcs=(self.member_taint(env, v, k),))
         return True
 
     def site(self, helper):
@@ -644,14 +692,14 @@ class Gen:
             v, _ = self.target(env, "int")
             tag = "call-return" if k == "ident" else "nested-call-return"
             self.emit(f"{v} = {k}_{u}({a})", kind="def", var=v, construct=tag, helper=k)
-            self.define(env, v, "int", ca, tag)
+            self.define(env, v, "int", ca, tag, srcs=(a,))
         elif k == "ident-str":
             a, ca, lit = self.str_atom(env, maxcard=4)
             v, _ = self.target(env, "str")
             ln = self.emit(f"{v} = ident_{u}({a})", kind="def", var=v, construct="call-return", helper="ident")
             if lit:
                 self.note_literal(ln, lit[0], lit[1])
-            self.define(env, v, "str", ca, "call-return")
+            self.define(env, v, "str", ca, "call-return", srcs=(a,))
             k = "ident"
         elif k == "ident-obj":
             vs = self.inst_vars(env, kinds=("inst", "list", "dict"))
@@ -660,14 +708,14 @@ class Gen:
             a = r.choice(vs)
             v = self.fresh("o")
             self.emit(f"{v} = ident_{u}({a})", kind="def", var=v, construct="call-return-object", helper="ident")
-            self.define(env, v, env.types[a], env.card.get(a, 1), "call-return-object")
+            self.define(env, v, env.types[a], env.card.get(a, 1), "call-return-object", srcs=(a,))
             k = "ident"
         elif k == "second":
             a, ca, _ = self.int_atom(env, maxcard=4)
             b, cb, _ = self.int_atom(env, maxcard=4)
             v, _ = self.target(env, "int")
             self.emit(f"{v} = second_{u}({a}, {b})", kind="def", var=v, construct="call-return-second-argument", helper=k)
-            self.define(env, v, "int", cb, "call-return-second-argument")
+            self.define(env, v, "int", cb, "call-return-second-argument", srcs=(a, b))
         elif k == "second-str":
             a, ca, _ = self.int_atom(env, maxcard=4)
             b, cb, lit = self.str_atom(env, maxcard=4)
@@ -675,7 +723,7 @@ class Gen:
             ln = self.emit(f"{v} = second_{u}({a}, {b})", kind="def", var=v, construct="call-return-second-argument", helper="second")
             if lit:
                 self.note_literal(ln, lit[0], lit[1])
-            self.define(env, v, "str", cb, "call-return-second-argument")
+            self.define(env, v, "str", cb, "call-return-second-argument", srcs=(a, b))
             k = "second"
         elif k == "first3":
             a, ca, _ = self.int_atom(env, maxcard=4)
@@ -683,15 +731,15 @@ class Gen:
             c, cc, _ = self.int_atom(env, maxcard=4)
             v, _ = self.target(env, "int")
             self.emit(f"{v} = first3_{u}({a}, {b}, {c})", kind="def", var=v, construct="call-return-first-of-three", helper=k)
-            self.define(env, v, "int", ca, "call-return-first-of-three")
+            self.define(env, v, "int", ca, "call-return-first-of-three", srcs=(a, b, c))
         elif k == "add":
             a, ca, _ = self.int_atom(env, maxcard=3)
             b, cb, _ = self.int_atom(env, maxcard=3)
-            if ca * cb > 9:
+            if ca * cb > 9 or (self.c09 and ca > 1 and cb > 1):
                 return False
             v, _ = self.target(env, "int")
             self.emit(f"{v} = add_{u}({a}, {b})", kind="def", var=v, construct="call-return-binary-fold", helper=k)
-            self.define(env, v, "int", ca * cb, "call-return-binary-fold")
+            self.define(env, v, "int", ca * cb, "call-return-binary-fold", srcs=(a, b))
         elif k == "setf":
             vs = [w for w in self.inst_vars(env)]
             if not vs:
@@ -711,6 +759,7 @@ class Gen:
             self.seq += 1
             for ob in pts:
                 env.hist.setdefault(ob, []).append(("f1", "%callee", self.seq))
+            self.write_member_taint(env, o, "f1", self.taint_of(env, a, o))
             self.p.features.add("callee-field-write")
         elif k == "getf":
             vs = [w for w in self.inst_vars(env)
@@ -723,7 +772,7 @@ class Gen:
             callee_written = any(x[1] == "%callee" and x[0] == "f1" for ob in env.types[o][1] for x in env.hist.get(ob, []))
             tag = "callee-field-read-after-callee-field-write" if callee_written else "callee-field-read"
             self.emit(f"{v} = getf_{u}({o})", kind="def", var=v, construct=tag, helper=k)
-            self.define(env, v, "int", card, tag)
+            self.define(env, v, "int", card, tag, srcs=(self.member_taint(env, o, "f1"),))
         elif k == "mk":
             a, ca, _ = self.int_atom(env, maxcard=4)
             v = self.fresh("o")
@@ -731,7 +780,8 @@ class Gen:
             oid = self.new_obj(env, "inst", "KB", self.mk_alloc_line, {"f1": ("int", ca)})
             self.seq += 1
             env.hist[oid].append(("f1", "%callee", self.seq))
-            self.define(env, v, ("obj", frozenset([oid])), 1, "callee-allocation")
+            self.define(env, v, ("obj", frozenset([oid])), 1, "callee-allocation", srcs=(a,))
+            env.ftaint[(oid, "f1")] = env.taint[v]
         elif k in ("kw", "kwk"):
             a, ca, _ = self.int_atom(env, maxcard=3)
             form = r.choice(["x", "xy", "xk", "xyk"])
@@ -748,6 +798,11 @@ class Gen:
         self.site(k)
         return True
 
+    def st_pass(self, env):
+        self.emit("pass", kind="noop")
+        self.p.features.add("pass")
+        return True
+
     def st_probe(self, env, v=None, final=False):
         if v is None:
             vs = [w for w, t in sorted(env.types.items()) if t == "int"]
@@ -761,7 +816,8 @@ class Gen:
         if isinstance(env.types[v], tuple):
             feat = "object:" + feat
         ln = self.emit(f'probe_{self.uid}("{label}", {v})', kind="probe", var=v, label=label, feature=feat)
-        self.p.probes[label] = {"line": ln, "var": v, "feature": feat, "is_obj": isinstance(env.types[v], tuple)}
+        self.p.probes[label] = {"line": ln, "var": v, "feature": feat, "is_obj": isinstance(env.types[v], tuple),
+                                "taint": sorted(env.taint.get(v, ())), "own": sorted(env.own.get(v, ()))}
         return True
 
     def block(self, env, budget):
@@ -782,14 +838,16 @@ class Gen:
                 emitted += 2
             else:
                 table = [(self.st_const_int, 12), (self.st_copy, 9), (self.st_binop_int, 12), (self.st_alloc, 7),
-                         (self.st_alloc_coll, 4 if not self.c09 else 2), (self.st_field_write, 12), (self.st_field_read, 12),
-                         (self.st_elem_write, 4 if not self.c09 else 2), (self.st_elem_read, 4 if not self.c09 else 2),
-                         (self.st_call, 14)]
+                         (self.st_alloc_coll, 4 if not self.c09 else 0), (self.st_field_write, 12), (self.st_field_read, 12),
+                         (self.st_elem_write, 4 if not self.c09 else 0), (self.st_elem_read, 4 if not self.c09 else 0),
+                         (self.st_call, 14), (self.st_pass, 2)]
                 if not self.c09:
                     table += [(self.st_const_str, 10), (self.st_binop_str, 12)]
                 tot = sum(w for _, w in table)
                 x = self.rng.random() * tot
                 for fn, w in table:
+                    if w <= 0:
+                        continue
                     x -= w
                     if x <= 0:
                         ok = fn(env)
